@@ -58,6 +58,12 @@ def evaluate(t, val):
         if key in val:
             return val[key]
         return ("term", ("attr", _t(base), t[2]))
+    if k == "sub" and t[2][0] == "slice":
+        base = evaluate(t[1], val)
+        parts = [evaluate(x, val) for x in t[2][1:]]
+        if base[0] == "c" and all(p[0] == "c" for p in parts):
+            return ("c", base[1][slice(*[p[1] for p in parts])])
+        raise Unknown("slice of a symbolic value")
     if k == "sub":
         base = evaluate(t[1], val)
         idx = evaluate(t[2], val)
@@ -129,9 +135,11 @@ def _cmp(op, a, b):
     if a[0] == "c" and b[0] == "c":
         x, y = a[1], b[1]
         try:
-            return ("c", {"Eq": x == y, "NotEq": x != y, "Lt": x < y, "LtE": x <= y,
-                          "Is": x is y or x == y and x is None, "IsNot": not (x is y),
-                          "In": None, "NotIn": None}[op])
+            fn = {"Eq": lambda: x == y, "NotEq": lambda: x != y, "Lt": lambda: x < y, "LtE": lambda: x <= y,
+                  "Is": lambda: (x is y) or (x is None and y is None) or (type(x) is type(y) and not isinstance(x, float) and x == y),
+                  "IsNot": lambda: not ((x is y) or (x is None and y is None) or (type(x) is type(y) and not isinstance(x, float) and x == y))}.get(op)
+            if fn is not None:
+                return ("c", fn())
         except TypeError:
             raise Unknown("comparison")
     if op in ("In", "NotIn"):
@@ -225,8 +233,11 @@ def _call(t, val):
             if recv[0] in ("stripped", "empty") and not args:
                 return recv
             raise Unknown(f"{m} on {recv}")
-        if m == "isdigit" and recv[0] == "c" and isinstance(recv[1], str):
-            return ("c", recv[1].isdigit())
+        if recv[0] == "c" and isinstance(recv[1], (str, bytes)) and all(x[0] == "c" for x in args) and not kws:
+            try:
+                return ("c", getattr(recv[1], m)(*[x[1] for x in args]))
+            except Exception as e:
+                return ("raise", ("exc", type(e).__name__))
         return ("term", ("call", ("attr", _t(recv), m), tuple(_t(a) for a in args), tuple((n, _t(v)) for n, v in kws)))
     fname = None
     if f[0] == "name":
@@ -235,6 +246,22 @@ def _call(t, val):
         pass
     if f[0] == "attr" and f[1] in (("name", "math"), ("name", "np"), ("name", "numpy")) and f[2] == "isnan":
         fname = "math.isnan"
+    if fname == "complex" and len(args) == 2:
+        vals = []
+        for a_ in args:
+            if a_[0] == "raise":
+                return a_
+            if a_[0] == "nan":
+                vals.append(float("nan"))
+            elif a_[0] == "c" and isinstance(a_[1], (int, float)):
+                vals.append(a_[1])
+            else:
+                vals = None
+                break
+        if vals is not None:
+            return ("c", complex(*vals))
+    if args and any(a_[0] == "raise" for a_ in args):
+        return [a_ for a_ in args if a_[0] == "raise"][0]
     if fname in ("int", "float", "bool", "len", "str", "math.isnan", "isinstance", "abs"):
         a = args[0] if args else None
         if fname == "isinstance":
